@@ -252,6 +252,8 @@ def r6_flushed_before_success(ctx):
 
 
 def run(ctx):
+    from . import effects
+    effects.check_property(ctx, "C04")    # R04.E: no operation on shared protocol state outside the reviewed table
     from . import C11
     C11.r6_every_write_under_buffer_lock(ctx)   # the records of one packet (payload pieces and their Waste frames) are not interleaved with another writer's
     C11.r2_contiguity(ctx)
